@@ -186,7 +186,7 @@ class Ctx:
         return out
 
     def tlc(self, module, cfg=None, workers=16, timeout=900, simulate=None, depth=None, env=None, extra=None,
-            heap=None, name=None, deadlock=True):
+            heap=None, name=None, deadlock=True, soft_timeout=False):
         """Run TLC on spec/<module>.tla with spec/<cfg> in a scratch copy of the spec dir."""
         scratch = os.path.join(self.work, "tlc-%s-%d" % (name or module, int(time.time() * 1000) % 100000000))
         # other checks may add/remove generated cfg files in spec/ while we copy: ignore files that vanish
@@ -222,6 +222,14 @@ class Ctx:
         except subprocess.TimeoutExpired as ex:
             out = (ex.stdout or b"").decode() if isinstance(ex.stdout, bytes) else (ex.stdout or "")
             shutil.rmtree(scratch, ignore_errors=True)
+            if soft_timeout and "is violated" not in out and "Error:" not in out:
+                # an exhaustive run cut short by its time budget (a loaded machine): no violation in what was explored; the caller
+                # records the run as truncated (evidence: complete = false) instead of failing the whole check
+                r = parse_tlc(out)
+                for m in re.finditer(r"Progress\(\d+\)[^\n]*?([\d,]+) states generated[^\n]*?([\d,]+) distinct states found", out):
+                    r.generated, r.distinct = int(m.group(1).replace(",", "")), int(m.group(2).replace(",", ""))
+                r.ok, r.truncated, r.wall = True, True, time.time() - t
+                return r
             raise Inconclusive("TLC timed out after %ds on %s/%s" % (timeout, module, cfg))
         r = parse_tlc(out)
         r.wall = time.time() - t
@@ -231,9 +239,13 @@ class Ctx:
     def l1(self, module, cfg, label=None, workers=16, timeout=900, must_hold=True, **kw):
         """Exhaustive model check of an L1 configuration; records states/transitions.
         An L1 failure is a spec/design problem, never a code violation: exit 2."""
-        r = self.tlc(module, cfg, workers=workers, timeout=timeout, **kw)
+        r = self.tlc(module, cfg, workers=workers, timeout=timeout, soft_timeout=must_hold, **kw)
         ent = {"module": module, "cfg": cfg, "generated": r.generated, "distinct": r.distinct, "depth": r.depth,
                "wall_s": round(r.wall, 1), "ok": r.ok}
+        if getattr(r, "truncated", False):
+            ent["complete"] = False
+            self.notes.append("L1 %s/%s: exploration cut short by its time budget of %d s after %d distinct states (no violation in what was "
+                              "explored; not exhaustive for this configuration)" % (module, cfg, timeout, r.distinct))
         self.cov["l1"].append(ent)
         self.cov["states"] += r.distinct
         self.cov["transitions"] += r.generated
